@@ -618,4 +618,131 @@ def readPrims (idx : List Int) (vs : List (UInt32 × UInt32 × UInt32)) : List (
       | .error e => .error e
       | .ok ps => .ok (p :: ps)
 
+
+/-! ## overlays (`_lmp_write_overlays` / `_lmp_read_overlays`) -/
+
+structure OverlayV where
+  id : Int
+  texinfo : Nat
+  faces : List Int
+  renderOrder : Nat
+  /-- u/v min/max (4), the four uv handles, origin, normal (18): 22 float bit patterns -/
+  floats : List UInt32
+  fadeMin : UInt32
+  fadeMax : UInt32
+  minCpu : Int
+  maxCpu : Int
+  minGpu : Int
+  maxGpu : Int
+deriving Repr, DecidableEq
+
+/-- the overlay record as the reader unpacks it: the face array always has `maxFaces` entries, the
+unused ones are the writer's pad bytes, i.e. zeros -/
+def overlayRec (maxFaces : Nat) (o : OverlayV) (texIdx : Nat) : List Val :=
+  [.int o.id, .int texIdx, .int ((o.renderOrder <<< 14) ||| o.faces.length)]
+    ++ o.faces.map Val.int ++ List.replicate (maxFaces - o.faces.length) (Val.int 0) ++ o.floats.map Val.f32
+
+/-- records, OVERLAY_FADES records, OVERLAY_SYSTEM_LEVELS records, texinfo table afterwards -/
+def writeOverlays (maxFaces : Nat) : IdFinder → List OverlayV →
+    Except LumpErr (List (List Val) × List (List Val) × List (List Val) × IdFinder)
+  | f, [] => .ok ([], [], [], f)
+  | f, o :: os =>
+    if maxFaces < o.faces.length then .error .tooLong
+    else
+      match writeOverlays maxFaces (f.call idKey o.texinfo).2 os with
+      | .error e => .error e
+      | .ok (rs, fs, ls, f') =>
+        .ok (overlayRec maxFaces o (f.call idKey o.texinfo).1 :: rs,
+             [.f32 o.fadeMin, .f32 o.fadeMax] :: fs,
+             [.int o.minCpu, .int o.maxCpu, .int o.minGpu, .int o.maxGpu] :: ls, f')
+
+def intsOf : List Val → Option (List Int)
+  | [] => some []
+  | .int x :: vs => (intsOf vs).map (x :: ·)
+  | _ => none
+
+/-- one overlay (the aux lumps are assumed present: `zip_longest` with equal lengths) -/
+def readOverlay (maxFaces : Nat) (texinfo : List Nat) (r fade lev : List Val) : Except LumpErr OverlayV :=
+  match r.take 3, intsOf ((r.drop 3).take maxFaces), f32sOf (r.drop (3 + maxFaces)), fade, lev with
+  | [.int id, .int ti, .int fr], some fa, some fl, [.f32 fmin, .f32 fmax], [.int c0, .int c1, .int g0, .int g1] =>
+    let cnt := fr.toNat &&& (1 <<< 14 - 1)
+    if maxFaces < cnt then .error .badData
+    else match pyIdx texinfo ti with
+      | some t => .ok { id := id, texinfo := t, faces := fa.take cnt, renderOrder := fr.toNat >>> 14, floats := fl,
+                        fadeMin := fmin, fadeMax := fmax, minCpu := c0, maxCpu := c1, minGpu := g0, maxGpu := g1 }
+      | none => .error .badData
+  | _, _, _, _, _ => .error .badData
+
+def readOverlays (maxFaces : Nat) (texinfo : List Nat) : List (List Val) → List (List Val) → List (List Val) → Except LumpErr (List OverlayV)
+  | r :: rs, f :: fs, l :: ls =>
+    match readOverlay maxFaces texinfo r f l with
+    | .error e => .error e
+    | .ok o =>
+      match readOverlays maxFaces texinfo rs fs ls with
+      | .error e => .error e
+      | .ok os => .ok (o :: os)
+  | _, _, _ => .ok []
+
+/-! ## surfedges + edges (`_lmp_write_surfedges` / `_lmp_read_surfedges`) -/
+
+/-- a surfedge: an Edge object, or the RevEdge of that Edge -/
+structure SurfEdgeV where
+  edge : Nat
+  reversed : Bool
+deriving Repr, DecidableEq
+
+/-- `first_vert`: the first vertex equal to `Vec()`, else a fresh one appended to the table -/
+def firstVert (isZero : Nat → Bool) (fresh : Nat) (verts : List Nat) : Nat × List Nat :=
+  match verts.find? isZero with
+  | some v => (v, verts)
+  | none => (fresh, verts ++ [fresh])
+
+def writeSurfIdx : IdFinder → List SurfEdgeV → List Int × IdFinder
+  | f, [] => ([], f)
+  | f, s :: ss =>
+    let r := f.call idKey s.edge
+    let t := writeSurfIdx r.2 ss
+    ((if s.reversed then -((r.1 : Nat) : Int) else ((r.1 : Nat) : Int)) :: t.1, t.2)
+
+def writeEdgeRecs (ed : Nat → Nat × Nat) : IdFinder → List Nat → List (List Val) × IdFinder
+  | f, [] => ([], f)
+  | f, e :: es =>
+    let ra := f.call idKey (ed e).1
+    let rb := ra.2.call idKey (ed e).2
+    let t := writeEdgeRecs ed rb.2 es
+    ([.int ra.1, .int rb.1] :: t.1, t.2)
+
+/-- `_lmp_write_surfedges`: (surfedge indices, edge records, vertex table afterwards).
+`dummy` = the `Edge(first_vert, first_vert)` created for index 0, `fresh` = the `Vec()` created when
+the table has no zero vertex; `ed dummy` must be `(first_vert, first_vert)`. -/
+def writeSurfedges (isZero : Nat → Bool) (fresh dummy : Nat) (ed : Nat → Nat × Nat) (verts : List Nat) (ss : List SurfEdgeV) :
+    List Int × List (List Val) × List Nat :=
+  let fv := firstVert isZero fresh verts
+  let r1 := writeSurfIdx (Finder.mk' idKey [dummy]) ss
+  let r2 := writeEdgeRecs ed (Finder.mk' idKey fv.2) r1.2.list
+  (r1.1, r2.1, r2.2.list)
+
+/-- what the reader returns for a surfedge: the two vertex objects in its direction -/
+def readEdgeRecs (verts : List Nat) : List (List Val) → Except LumpErr (List (Nat × Nat))
+  | [] => .ok []
+  | r :: rs =>
+    match r with
+    | [.int a, .int b] =>
+      match pyIdx verts a, pyIdx verts b, readEdgeRecs verts rs with
+      | some va, some vb, .ok es => .ok ((va, vb) :: es)
+      | _, _, _ => .error .badData
+    | _ => .error .badData
+
+def readSurfIdx (edges : List (Nat × Nat)) : List Int → Except LumpErr (List (Nat × Nat))
+  | [] => .ok []
+  | i :: is =>
+    match (if i < 0 then (edges[(-i).toNat]?).map (fun e => (e.2, e.1)) else edges[i.toNat]?), readSurfIdx edges is with
+    | some e, .ok es => .ok (e :: es)
+    | _, _ => .error .badData
+
+def readSurfedges (verts : List Nat) (idx : List Int) (edgeRecs : List (List Val)) : Except LumpErr (List (Nat × Nat)) :=
+  match readEdgeRecs verts edgeRecs with
+  | .error e => .error e
+  | .ok es => readSurfIdx es idx
+
 end C11
